@@ -1378,7 +1378,7 @@ def run(ctx):
     # histories on one paths object: own stream again
     rng3 = _random.Random(ctx.rng.getrandbits(64))
     g3 = Gen(rng3, ctx.tier == "thorough")
-    cases += [gen_hist(rng3, g3, ctx.tier == "thorough") for _ in range(26 if ctx.tier != "thorough" else 150)]
+    cases += [gen_hist(rng3, g3, ctx.tier == "thorough") for _ in range(20 if ctx.tier != "thorough" else 140)]
     if ctx.replay:
         rp = json.load(open(ctx.replay))
         if rp.get("case"):
@@ -1396,9 +1396,10 @@ def run(ctx):
         c["idx"] = i
     fit_csv = [c for c in cases if c["kind"] == "fit" and c["csv"]]
     fit_nocsv = [c for c in cases if c["kind"] == "fit" and not c["csv"]]
-    rest = [c for c in cases if c["kind"] not in ("fit", "quant", "pdf")]
+    rest = [c for c in cases if c["kind"] not in ("fit", "quant", "pdf", "hist")]
+    hist_cases = [c for c in cases if c["kind"] == "hist"]
     stat_cases = [c for c in cases if c["kind"] in ("quant", "pdf")]
-    payloads = [{"cases": ch} for ch in chunks(rest, 14)] + [{"cases": ch} for ch in chunks(stat_cases, 2) if ch] + [{"cases": ch} for ch in chunks(fit_csv, 2 if len(fit_csv) < 12 else 6) if ch]
+    payloads = [{"cases": ch} for ch in chunks(rest, 14)] + [{"cases": ch} for ch in chunks(hist_cases, 5) if ch] + [{"cases": ch} for ch in chunks(stat_cases, 2) if ch] + [{"cases": ch} for ch in chunks(fit_csv, 2 if len(fit_csv) < 12 else 6) if ch]
     if fit_nocsv:
         payloads.append({"cases": fit_nocsv, "samples_to_csv": False})
     outs = common.run_impl_parallel("c09_impl", payloads, timeout=1500)
